@@ -456,6 +456,8 @@ func runC01(r *Run, verifDir string) {
 	valueStorageFresh(r, "C01.P6")
 	valueTagRecorded(r, "C01.P5")
 	(&lexCtx{r: r, p: r.P, ord: map[string]int{}}).x4BinaryReaderTotalAs("C01.P7")
+	r.Import("C01.P8", "the binary writer emits a Big Integer only as the sign-extended two's complement of bigIntToBytes (a value of any magnitude and sign decodes to itself)", 2, "C03", "C03.T3", func(k string) bool { return strings.Contains(k, "BigInteger") })
+	r.Import("C01.P9", "bigIntToBytes tests the top bit of the first byte on every non-zero path (both signs): a number whose leading bit disagrees with its sign gets its sign word", 1, "C03", "C03.T6", nil)
 }
 
 // valueTagRecorded: ttlv.Value.TagDecodeTTLV records the tag it was asked to decode on every path that can return
